@@ -109,16 +109,34 @@ def ed_add(P, R):
     return (x3, y3)
 
 
+def _padd(P, R):
+    """projective twisted Edwards addition add-2008-bbjlp with a = -1 (complete, since d is a non-square)"""
+    X1, Y1, Z1 = P
+    X2, Y2, Z2 = R
+    A = Z1 * Z2 % Q
+    B = A * A % Q
+    C = X1 * X2 % Q
+    Dd = Y1 * Y2 % Q
+    E = D * C * Dd % Q
+    F = (B - E) % Q
+    G = (B + E) % Q
+    X3 = A * F * ((X1 + Y1) * (X2 + Y2) - C - Dd) % Q
+    Y3 = A * G * (Dd + C) % Q
+    Z3 = F * G % Q
+    return (X3, Y3, Z3)
+
+
 def ed_mul(P, n):
-    """n any non-negative integer, any curve point (complete formulas)"""
-    R = ED_ZERO
-    A = P
+    """n any non-negative integer, any curve point (complete formulas; projective ladder, one inversion)"""
+    R = (0, 1, 1)
+    A = (P[0], P[1], 1)
     while n > 0:
         if n & 1:
-            R = ed_add(R, A)
-        A = ed_add(A, A)
+            R = _padd(R, A)
+        A = _padd(A, A)
         n >>= 1
-    return R
+    zi = pow(R[2], Q - 2, Q)
+    return (R[0] * zi % Q, R[1] * zi % Q)
 
 
 def ed_neg(P):
